@@ -19,28 +19,45 @@ from harness.common import Collector
 
 ID = "C07"
 
-RULE = ("Hypothesis-generated Python projects of 1-3 files (harness/c07_gen.py): module-level functions, classes with "
-        "own/inherited __init__ and methods, nested functions; every call on its own line, every call line labelled by "
-        "the generator with its call kind (direct, from-import, module-attribute, constructor, method, inherited "
-        "method, self-method, callback positional/keyword, returned function/closure, stored in variable/field/list/"
-        "dict, recursion, mutual recursion, ...). The program is executed by CPython under sys.setprofile; every "
-        "Python-level call among the program's own functions is a dynamic edge (caller def, call line, callee def). "
-        "lian runs with entry rule %unit_init. Oracle: every dynamic edge whose dynamic call chain from module code is "
-        "itself present statically ('primary') must occur as a CallSite in some stored path of call_paths_p3, and a "
-        "P3 frame with that call site must have been analysed. Non-trivial = >= 3 distinct dynamic edges on call lines "
-        "of >= 2 kinds; distinct by hash of the project's files.")
+RULE = ("Python projects of 1-3 files (flat or with the helpers in a package directory) built by harness/c07_gen.py from one "
+        "48-bit seed drawn by Hypothesis: module-level functions, higher-order functions, factories, classes with own / "
+        "inherited / super() / explicit-base __init__, single and diamond inheritance, nested functions, recursion groups; "
+        "every call expression on its own line and labelled by the generator with (kind, via): kind = how the callee is "
+        "reached (direct, constructor, method, inherited-method, overriding-method, self-method, callback-positional / "
+        "-keyword / -bound-method / -constructor, returned-closure / -function / -param, stored-variable / -list / -dict / "
+        "-field / -global / -class, method-on-param / -returned / -field / -list-element, recursion, mutual-recursion, "
+        "recursive-method, plus extended kinds: super, default parameter, closure-captured, static/classmethod, lambda, "
+        "class attribute, diamond lookups, *args/**kwargs, ...), via = local / from-import (flat, package, relative) / "
+        "module-attribute (function, class, base class, value). The program is run by CPython under sys.setprofile; every "
+        "Python-level call among the program's own functions is a dynamic edge (caller def, call line, callee def). lian "
+        "runs with entry rule %unit_init (85 %) or with one configured entry function that the harness then calls (15 %); "
+        "thorough tier: 20 % of the cases with --enable-p2. Oracle: every dynamic edge whose dynamic call chain from the "
+        "entry is itself stored and analysed statically must occur as a CallSite in some stored path of call_paths_p3, and "
+        "a P3 frame with exactly that call site must have been analysed (frames recorded by wrapping "
+        "P3GlobalSemanticAnalysis.analyze_stmts). Non-trivial = >= 3 distinct dynamic edges on call lines of >= 2 kinds; "
+        "distinct by hash of (files, mode).")
 
 ASSUMPTIONS = [
     "ground truth is one concrete CPython execution per program (programs are deterministic and take no input), so "
-    "only edges that really happen are demanded; dead call sites are not checked",
-    "ids are joined by (file, 1-based line, name): method_decl start_row+1 = co_firstlineno, call statement "
-    "start_row+1 = f_back.f_lineno; %unit_init = module code; pinned by replays/C07/calibration-*.json on every run",
+    "only edges that really happen are demanded; dead call sites are not checked; precision (spurious static edges) is "
+    "not this property",
+    "ids are joined by (file, 1-based line, name): method_decl start_row+1 = line of the `def` (CPython reports the first "
+    "decorator line, corrected from the source), call statement start_row+1 = f_back.f_lineno; %unit_init = module code; "
+    "%mmN = <lambda>; pinned by replays/C07/calibration-*.json on every run (dynamic edges and GIR tables exactly, every "
+    "stored call site mappable; mismatch = harness error) and by re-reading the stored tables of a fresh `lian run` process",
     "a constructor call K() is the dynamic edge to the __init__ that CPython runs (own or inherited); classes without "
     "any Python-level __init__ produce no dynamic edge and nothing is demanded",
-    "an edge is only demanded when every edge of (one of) its dynamic call chain(s) down from module code is present "
-    "in the static result, so that one root cause is not reported again under the kinds of the calls behind it",
-    "module code of an imported file is a root (lian: %unit_init of that unit is an entry point); the implicit 'call' "
-    "of an imported module's code and of class bodies are not call edges",
+    "an edge is only demanded when every edge of (one of) its dynamic call chain(s) down from the entry is stored and "
+    "analysed statically, so that one root cause is not reported again under the kinds of the calls behind it (those "
+    "are counted as secondary_missing_edges)",
+    "module code of an imported file is a root (lian: %unit_init of that unit is an entry point under the %unit_init "
+    "rule); the implicit execution of an imported module's code and of class bodies are not call edges",
+    "a missing edge / unanalysed callee all of whose demanded occurrences lie behind P3's recursion bound (second cycle "
+    "of the call path, CallPath.count_cycles() > 1) is attributed to that bound (kind cycle-cutoff), whatever the "
+    "generator's label of the line",
+    "under --enable-p2 all kinds that need a class or an instance form one root-cause family (object-call)",
+    "kind labels come from the generator's own resolution of names, MRO (C3) and self-dispatch; they only name the "
+    "root-cause class of a discrepancy, they never decide whether there is one",
 ]
 
 LINE_BUDGET = 200000
@@ -688,7 +705,7 @@ def main(tier, seed, t0):
     if tier == "quick":
         total, p2_pct = 416, 0
     else:
-        total, p2_pct = 20000, 20
+        total, p2_pct = 16000, 20
     nsh = max(1, common.NCPU) * (1 if tier == "quick" else 4)
     per = (total + nsh - 1) // nsh
     args = [(common.shard_seed(seed, i), per, avoid, p2_pct, True) for i in range(nsh)]
